@@ -369,6 +369,7 @@ def angle_in_entries():
         ('UnitQuaternion.Eul', lambda a, u: UnitQuaternion.Eul(a, unit=u), 3),
         ('UnitQuaternion.AngVec', lambda a, u: UnitQuaternion.AngVec(a, [1, 2, 3], unit=u), 1),
         ('Twist3.Rx', lambda a, u: Twist3.Rx([a], u), 1), ('Twist3.Ry', lambda a, u: Twist3.Ry([a], u), 1), ('Twist3.Rz', lambda a, u: Twist3.Rz([a], u), 1),
+        ('Twist3.Rx:scalar', lambda a, u: Twist3.Rx(a, u), 1), ('Twist3.Ry:scalar', lambda a, u: Twist3.Ry(a, u), 1), ('Twist3.Rz:scalar', lambda a, u: Twist3.Rz(a, u), 1),
         ('Twist3.exp', lambda a, u: Twist3([1, 2, 3, 0.2, -0.3, 0.4]).exp(a, u), 1),
         ('Twist2.exp', lambda a, u: Twist2([1, 2, 0.5]).exp(a, u), 1),
     ]
@@ -814,8 +815,14 @@ def multi_run(ctx, report=None):
                         ctx.count('multi:orders:cases')
                         if r1 != r2 or r1[0] == 'raise':
                             report(f'order:alias-differs-multi:{cn}.rpy', f"{cn}.rpy on {n} poses: order {o2!r} is not the same as its alias {o1!r}", {'entry': cn + '.rpy', 'n': n})
-                    if len({outcome(X.rpy, order=o1) for o1, _ in ORDERS}) != 3:
-                        report(f'order:not-distinguished-multi:{cn}.rpy', f"{cn}.rpy on {n} poses: two different orders give the same result", {'entry': cn + '.rpy', 'n': n})
+                    # distinctness needs generic rotations (the random generator also emits the identity and other specials)
+                    Rg = [base.rpy2r([0.3 + 0.2 * i, -0.4 + 0.1 * i, 0.5 - 0.3 * i]) for i in range(n)]
+                    Xg = UnitQuaternion([base.r2q(R) for R in Rg]) if cn == 'UnitQuaternion' else \
+                        (SO3(Rg, check=False) if cn == 'SO3' else SE3([base.r2t(R) for R in Rg], check=False))
+                    outs3 = [outcome(Xg.rpy, order=o1) for o1, _ in ORDERS]
+                    if len(set(outs3)) != 3:
+                        report(f'order:not-distinguished-multi:{cn}.rpy', f"{cn}.rpy on {n} poses: two different orders give the same result: " +
+                               '; '.join(show(o)[:120] for o in outs3), dict(desc, entry=cn + '.rpy', n=n, outcomes=[show(o) for o in outs3]))
                     for bo in BAD_ORDERS:
                         r = outcome(X.rpy, order=bo)
                         ctx.count('multi:orders:bad:cases')
@@ -1040,7 +1047,7 @@ def run(ctx):
                 "distinct by (entry, form, length, values)")
     ctx.trusted_extra = ["hand model Model/C15_ArgCheck.v of argcheck.getvector/isvector (tied by the exhaustive grid of model_corr, vm_compute)",
                          "the table of props/C15.py (which parameter is the vector and which lengths it accepts) is hand-maintained",
-                         "tracing patch: math.pi is the symbol pi while tracing (pi_f of the ops record); np.isscalar accepts SymPy expressions"]
+                         "tracing patch: math.pi is the symbol pi while tracing (pi_f of the ops record)"]
     with ctx.timed('regenerate'):
         g = build(ctx)
         path = ctx.write_gen(MOD + '.v', g.coq_text())
